@@ -56,6 +56,24 @@ def run(tier, seed):
     import random
     rnd = random.Random(2000 + seed)
     approx = lambda g, k: (same(g, k) if not isinstance(g, float) else abs(g - float(k)) < 1e-9)
+    # scale: float (dyadic, exactly representable) coefficients at orders 10..18 built from chosen poles strictly inside the circle
+    def _poly_from_roots(roots):
+        c = [F(1)]
+        for r in roots:
+            c = [a - r * b for a, b in zip(c + [F(0)], [F(0)] + c)]
+        return c
+    for order in (10, 14, 16, 18):
+        for mag in (F(7, 8), F(1, 2)):
+            for gain in (F(1), F(5, 2), F(-3)):
+                def hi():
+                    roots = [mag if i % 2 == 0 else -mag for i in range(order)]
+                    den = [gain * c for c in _poly_from_roots(roots)]
+                    fl = [float(c) for c in den]
+                    if any(F(v) != c for v, c in zip(fl, den)):
+                        return True, "coefficients not exactly representable: case skipped"
+                    got = parcor_stable(ZFilter([1.0], fl))
+                    return got is True or got == True, "order %d, float coefficients, poles of magnitude %s, gain %s: parcor_stable says %r" % (order, mag, gain, got)
+                R.guard("parcor_stable-iff-all-poles-strictly-inside,any-leading-coefficient", {"order": order, "pole": str(mag), "gain": str(gain), "float": True}, hi)
     for p in range(1, maxp + 1):
         for trial in range(8 if tier == "quick" else 40):
             kq = [F(rnd.randint(-9, 9), 10) for _ in range(p)]
